@@ -1,3 +1,125 @@
-(* placeholder until the proofs are in *)
-From Coq Require Import NArith List.
-From Morfuse Require Import C10.Model C11.Model C11.Spec.
+(* C11/Properties.v - the property theorems of C11, and nothing else.
+   Every theorem is closed by [exact <lemma>] and followed by Print Assumptions.
+   [read_damaged h its d] reads the archive [write h its] after damage d with the call
+   sequence of its, under the decisions that C11/Generated.v reads off Archiver.cpp
+   (check_after_read, version_test_is_or): if a repair is reverted there, Generated.v
+   changes and the theorems below no longer check.  Positions are classified by the
+   writer's layout [wlayout]; [C11_the_reader_consumes_the_bytes_as_the_writer_laid_them_out]
+   shows it is also the way the reader consumes the archive. *)
+From Coq Require Import ZArith NArith List Bool.
+From Morfuse Require Import C10.Model C10.Spec C11.Generated C11.Model C11.Spec.
+From Morfuse Require Import C11.ProofsGeneric C11.ProofsLayout C11.ProofsDamage C11.ProofsStruct C11.ProofsObject C11.Proofs.
+Import ListNotations.
+Local Open Scope N_scope.
+
+(* an archive cut off at ANY byte - every strict prefix of every representable archive -
+   ends the read with ReadStreamFail: it neither completes nor runs on unwritten memory *)
+Theorem C11_truncation_detected :
+  forall h its n, wf_case h its = true -> n < nlen (write h its) ->
+    read_damaged h its (DTrunc n) = OErr ReadStreamFail.
+Proof. exact truncation_detected. Qed.
+Print Assumptions C11_truncation_detected.
+
+(* any other byte value in any byte of any type tag (of the version records, of every
+   primitive / string / raw / pointer / position / object record, inside object bodies) *)
+Theorem C11_tag_substitution_detected :
+  forall h its i v o, wf_case h its = true ->
+    nth_N (wlayout h its) i = Some CTag -> nth_N (write h its) i = Some o -> v <> o -> v < 256 ->
+    exists t f, read_damaged h its (DSubst [(i, v)]) = OErr (TypeError t f).
+Proof. exact tag_substitution_detected. Qed.
+Print Assumptions C11_tag_substitution_detected.
+
+Theorem C11_header_substitution_detected :
+  forall h its i v o, wf_case h its = true ->
+    nth_N (wlayout h its) i = Some CHeader -> nth_N (write h its) i = Some o -> v <> o -> v < 256 ->
+    read_damaged h its (DSubst [(i, v)]) = OErr InvalidArchiveHeader.
+Proof. exact header_substitution_detected. Qed.
+Print Assumptions C11_header_substitution_detected.
+
+(* one changed byte in the engine version OR in the program version: WrongVersion *)
+Theorem C11_version_substitution_detected :
+  forall h its i v o, wf_case h its = true ->
+    nth_N (wlayout h its) i = Some (CP PVer) -> nth_N (write h its) i = Some o -> v <> o -> v < 256 ->
+    read_damaged h its (DSubst [(i, v)]) = OErr WrongVersion.
+Proof. exact version_substitution_detected. Qed.
+Print Assumptions C11_version_substitution_detected.
+
+Theorem C11_size_substitution_detected :
+  forall h its i v o, wf_case h its = true ->
+    nth_N (wlayout h its) i = Some (CP PSize) -> nth_N (write h its) i = Some o -> v <> o -> v < 256 ->
+    read_damaged h its (DSubst [(i, v)]) = OErr ReadPastEndObject \/
+    read_damaged h its (DSubst [(i, v)]) = OErr NotReadEntireDataObject.
+Proof. exact size_substitution_detected. Qed.
+Print Assumptions C11_size_substitution_detected.
+
+(* a changed class-name byte: InvalidClass or ObjectClassError - unless it is the same
+   letter in the other case (ClassDef::GetClass compares with str::icmp): then the name
+   still resolves to the same class and the archive reads exactly as the intact one *)
+Theorem C11_class_name_substitution_detected :
+  forall h its i v o, wf_case h its = true ->
+    nth_N (wlayout h its) i = Some (CP PName) -> nth_N (write h its) i = Some o -> v <> o -> v < 256 ->
+    (upper v <> upper o ->
+       read_damaged h its (DSubst [(i, v)]) = OErr InvalidClass \/
+       read_damaged h its (DSubst [(i, v)]) = OErr ObjectClassError) /\
+    (upper v = upper o -> read_damaged h its (DSubst [(i, v)]) = OOk (spec_items its)).
+Proof. exact class_name_substitution_detected. Qed.
+Print Assumptions C11_class_name_substitution_detected.
+
+(* all of the above against the executable expectation of C11/Spec.v (the "s" lines) *)
+Theorem C11_a_single_damage_meets_the_expectation :
+  forall h its d, wf_case h its = true ->
+    (match d with DTrunc _ => True | DSubst [(i, v)] => v < 256 | DSubst _ => False end) ->
+    match expect_of h its d with
+    | EErr => is_err (read_damaged h its d)
+    | EOkSame => read_damaged h its d = OOk (spec_items its)
+    | EAny => True
+    end.
+Proof. exact single_damage_meets_expectation. Qed.
+Print Assumptions C11_a_single_damage_meets_the_expectation.
+
+Theorem C11_the_reader_consumes_the_bytes_as_the_writer_laid_them_out :
+  forall h its, wf_case h its = true -> rlayout h its = wlayout h its.
+Proof. exact rlayout_is_wlayout. Qed.
+Print Assumptions C11_the_reader_consumes_the_bytes_as_the_writer_laid_them_out.
+
+(* generic: ANY reader program that succeeds on a stream fails with ReadStreamFail on every
+   strict prefix of what it consumed, as long as short reads are reported *)
+Theorem C11_any_reader_reports_any_truncation :
+  forall (A : Type) (p : prog A) pos bs a pos' r n,
+    run true p (Good pos bs) = Ok a (Good pos' r) -> n + nlen r < nlen bs ->
+    run true p (Good pos (truncate bs n)) = Err ReadStreamFail.
+Proof. exact @truncation_generic. Qed.
+Print Assumptions C11_any_reader_reports_any_truncation.
+
+(* why the two repairs matter (the code before them, caf = false / vor = false) *)
+Theorem C11_truncation_refuted_when_unchecked :
+  exists h its n, wf_case h its = true /\ n < nlen (write h its) /\
+    forall e, read false true h (shape its) (truncate (write h its) n) <> OErr e.
+Proof. exact truncation_refuted_when_unchecked. Qed.
+Print Assumptions C11_truncation_refuted_when_unchecked.
+
+Theorem C11_version_refuted_when_and :
+  exists h its i v o, wf_case h its = true /\ nth_N (wlayout h its) i = Some (CP PVer) /\
+    nth_N (write h its) i = Some o /\ v <> o /\ v < 256 /\
+    read true false h (shape its) (subst1 (write h its) i v) = OOk (spec_items its).
+Proof. exact version_refuted_when_and. Qed.
+Print Assumptions C11_version_refuted_when_and.
+
+(* non-vacuity *)
+Definition ex_items : list item :=
+  [ ILeaf (LPtr true (Some 5)); IObj 2 5 [LPrim KInt16 32768; LPtr false (Some 5); LStr [200; 1]]; ILeaf (LStr []) ].
+
+Example C11_example_layout :
+  wf_case ex_h ex_items = true /\ nlen (write ex_h ex_items) = 140 /\
+  nth_N (wlayout ex_h ex_items) 0 = Some CHeader /\ nth_N (wlayout ex_h ex_items) 14 = Some (CP PVer) /\
+  nth_N (wlayout ex_h ex_items) 51 = Some CTag /\ nth_N (wlayout ex_h ex_items) 55 = Some (CP PSize) /\
+  nth_N (wlayout ex_h ex_items) 79 = Some (CP PName).
+Proof. vm_compute. repeat split; reflexivity. Qed.
+
+Example C11_example_outcomes :
+  run_damages ex_h ex_items [DTrunc 0; DTrunc 60; DTrunc 126; DSubst [(0, 0)]; DSubst [(14, 2)]; DSubst [(51, 12)];
+                             DSubst [(55, 0)]; DSubst [(55, 200)]; DSubst [(79, 118)]; DSubst [(79, 0)]; DSubst [(80, 111)]] =
+  [OErr ReadStreamFail; OErr ReadStreamFail; OErr ReadStreamFail; OErr InvalidArchiveHeader; OErr WrongVersion;
+   OErr (TypeError 13 12); OErr ReadPastEndObject; OErr NotReadEntireDataObject; OOk ex_items; OErr InvalidClass;
+   OErr InvalidClass].
+Proof. vm_compute. reflexivity. Qed.
